@@ -135,6 +135,11 @@ Walk(inp, ls, i, last1, flex) ==
             /\ flex + last1 + 1 >= p1
             /\ Walk(inp, ls, i + 1, p1, 0)
 HardOK(inp, ls) == Walk(inp, ls, 1, 0, 0)
+\* Diagnosis (names the finding, demands nothing): a line holds a line terminator of the text with
+\* something behind it - the break was emitted as a part of the line instead of ending it
+TermG(inp) == {IG(inp[k]) : k \in {k \in 1..Len(inp) : INl(inp[k])}}
+TermInside(inp, ls) ==
+  \E i \in 1..Len(ls) : \E j \in 1..(Len(ls[i]) - 1) : LG(ls[i][j]) \in TermG(inp)
 
 (* ---- verdict ------------------------------------------------------------- *)
 (* done: the scanner reported the end of the text within Len(inp)+2 calls.  *)
